@@ -267,7 +267,7 @@ partial def showInner (ik : InnerKind) (ir : String) (iv : PVal) : String :=
 end
 
 def showTok : Tok → String
-  | .lb => "lb" | .rb => "rb" | .lk => "lk" | .rk => "rk"
+  | .lb => "lk" | .rb => "rk" | .lk => "lb" | .rk => "rb"
   | .str s _ => s!"(s {bytesHex s})"
   | .num t => s!"(n {bytesHex t})"
   | .tru => "t" | .fls => "f" | .null => "z"
@@ -283,22 +283,16 @@ def runTok (bs : Bytes) : String :=
   let its := tokenize bs
   let toks := its.filterMap fun | .tok t => some t | _ => none
   let failed := its.any fun | .tok _ => false | _ => true
-  let depth : Int := toks.foldl (fun d t =>
-    match t with
-    | .lb | .lk => d + 1
-    | .rb | .rk => d - 1
-    | _ => d) 0
-  -- a pending object key (`{"a"` then EOF) is not "top level" either, but then depth > 0
   let body := "(" ++ " ".intercalate (toks.map showTok) ++ ")"
-  if !failed && depth == 0 then "ok " ++ body else s!"err {toks.length} {body}"
+  if !failed then "ok " ++ body else s!"err {toks.length} {body}"
 
 def step (line : String) : String :=
   match parseLine line with
-  | some [.atom "tok", h] =>
+  | some (.atom "tok" :: h :: _) =>
     match sxHex h with
     | some bs => runTok bs
     | none => "bad-op"
-  | some [.atom "enc", mode, env, .atom root, msg] =>
+  | some (.atom "enc" :: mode :: env :: .atom root :: msg :: _) =>
     match modeOf mode, parseEnv env, parseVal msg with
     | some _, some e, some v =>
       let O := mkOracle (collectFmt {} msg) {}
@@ -307,7 +301,7 @@ def step (line : String) : String :=
       | .err _ => "err"
       | .panic _ => "panic"
     | _, _, _ => "bad-op"
-  | some [.atom "dec", mode, env, .atom root, h, ora] =>
+  | some (.atom "dec" :: mode :: env :: .atom root :: h :: ora :: _) =>
     match modeOf mode, parseEnv env, sxHex h, parseOra ora with
     | some p, some e, some bs, some ot =>
       let c : Cfg := { env := e, O := mkOracle {} ot, protoToAny := p }
@@ -316,7 +310,7 @@ def step (line : String) : String :=
       | .err _ => "err"
       | .panic _ => "panic"
     | _, _, _, _ => "bad-op"
-  | some [.atom "query", mode, env, .atom root, .list (.atom "q" :: kvs), ora] =>
+  | some (.atom "query" :: mode :: env :: .atom root :: .list (.atom "q" :: kvs) :: ora :: _) =>
     let kvs' : Option (List (Bytes × List Bytes)) := kvs.mapM fun
       | .list (k :: vs) => do some ((← sxHex k), (← vs.mapM sxHex))
       | _ => none
